@@ -197,7 +197,7 @@ func (e *Engine) syncModel(st *State, g *G, full string, args []Value) (Value, b
 			st.locks[key] = m
 		}
 		if m.owner == me {
-			e.vc(st, "DEADLOCK: goroutine locks a mutex it already holds ("+g.top().fn.String()+")", B(true))
+			e.vc(st, "deadlock", "DEADLOCK: goroutine locks a mutex it already holds ("+g.top().fn.String()+")", B(true))
 			return nil, true, "VC:"
 		}
 		if m.owner != 0 || m.readers > 0 {
@@ -210,7 +210,7 @@ func (e *Engine) syncModel(st *State, g *G, full string, args []Value) (Value, b
 	case "(*sync.Mutex).Unlock", "(*sync.RWMutex).Unlock":
 		m := st.locks[key]
 		if m == nil || m.owner == 0 {
-			e.vc(st, "unlock of unlocked mutex", B(true))
+			e.panicVC(st, "unlock of unlocked mutex", B(true))
 			return nil, true, "VC:"
 		}
 		m.owner = 0
@@ -223,7 +223,7 @@ func (e *Engine) syncModel(st *State, g *G, full string, args []Value) (Value, b
 			st.locks[key] = m
 		}
 		if m.owner == me {
-			e.vc(st, "DEADLOCK: RLock while holding write lock ("+g.top().fn.String()+")", B(true))
+			e.vc(st, "deadlock", "DEADLOCK: RLock while holding write lock ("+g.top().fn.String()+")", B(true))
 			return nil, true, "VC:"
 		}
 		if m.owner != 0 {
@@ -236,7 +236,7 @@ func (e *Engine) syncModel(st *State, g *G, full string, args []Value) (Value, b
 	case "(*sync.RWMutex).RUnlock":
 		m := st.locks[key]
 		if m == nil || m.readers == 0 {
-			e.vc(st, "RUnlock of unlocked RWMutex", B(true))
+			e.panicVC(st, "RUnlock of unlocked RWMutex", B(true))
 			return nil, true, "VC:"
 		}
 		m.readers--
@@ -480,7 +480,7 @@ func (e *Engine) timeModel(st *State, g *G, fr *Frame, f *ssa.Function, full str
 	case "(*time.Timer).Stop", "(*time.Ticker).Stop", "(*time.Timer).Reset", "(*time.Ticker).Reset":
 		p := args[0].(Ptr)
 		if p.obj == 0 {
-			e.vc(st, "nil timer", B(true))
+			e.panicVC(st, "nil timer", B(true))
 			return nil, true, "VC:"
 		}
 		ch := st.load(p).(StructV)[0].(Ptr)
